@@ -856,6 +856,22 @@ func (m *Machine) harnessIntrinsic(name string, args []Value) (Value, bool) {
 		return nil, true
 	case "vIsRuntimeError":
 		return m.IsRuntimeError(args[0]), true
+	case "vFootprintReset":
+		m.trackGlobals = true
+		m.gStores, m.gLoads = nil, nil
+		return nil, true
+	case "vGlobalStores":
+		out := []Value{}
+		for _, g := range m.gStores {
+			out = append(out, g)
+		}
+		return out, true
+	case "vGlobalLoads":
+		out := []Value{}
+		for _, g := range m.gLoads {
+			out = append(out, g)
+		}
+		return out, true
 	case "vSymbolic":
 		return true, true
 	case "vConcretize":
